@@ -18,10 +18,10 @@ EXHAUSTIVE = {"quick": True, "thorough": True}
 RULE = ("exhaustive: every GT string over alleles {., 0, 1, 2, 3, 70}, separators {/, |}, ploidy 1-3 (942 strings; the lone '.' is VCF's "
         "missing-VALUE token, not a ploidy-1 genotype, and is excluded from the oracle's domain - 941 classified), each in its own "
         "one-record two-sample input, x role {selected, unselected, one of two selected samples next to a complete/missing/multiallelic one, before and after it, with and without projection} x container {vcf, raw bcf, bgzf bcf, bgzf vcf}; quick runs L2 for all and C "
-        "for vcf + raw bcf, thorough all four containers at C. Non-trivial: every string except 0/0; distinct = (string, role, container, level).")
+        "for vcf + raw bcf, thorough all four containers at C. A supplementary (not exhaustive) sweep uses allele indices 255..2^63-1 around powers of two in the VCF path. Non-trivial: every string except 0/0; distinct = (string, role, container, level).")
 ASSUMPTIONS = ["'./2' style strings (missing AND multiallelic) may be reported with either reason; only 'skipped' is required",
                "allele 70 forces an int16 GT vector in BCF"]
-FLOORS = {"quick": {"evaluations": 5000, "distinct_nontrivial": 5000, "counts": {"L2_classifications": 3700, "C_runs": 3700, "C_pair_runs": 5000}},
+FLOORS = {"quick": {"evaluations": 5000, "distinct_nontrivial": 5000, "counts": {"L2_classifications": 3700, "C_runs": 3700, "C_pair_runs": 5000, "C_big_allele_runs": 200}},
           "thorough": {"evaluations": 9000, "distinct_nontrivial": 9000, "counts": {"L2_classifications": 3700, "C_runs": 7400, "C_pair_runs": 5000}}}
 NSHARD = 32
 ALLELES = [None, 0, 1, 2, 3, 70]
@@ -61,7 +61,45 @@ def expected_code(g):
     return c[1] if c[0] == "geno" else CODE[c[0]]
 
 
+BIG = [255, 256, 257, 511, 512, 65535, 65536, 65537, 4294967295, 4294967296, 4294967297, 9223372036854775807]
+
+
+def big_allele_sweep(S, p):
+    """Beyond the exhaustive alphabet: allele indices around powers of two (VCF text path), where a narrowing
+    conversion would wrap. Every diploid pair with such an index is multiallelic (or missing when paired with '.')."""
+    strings = []
+    for a in BIG:
+        for other in (0, 1, None, a, 2):
+            for sep in "/|":
+                strings.append("%s%s%s" % ("." if other is None else other, sep, a))
+                strings.append("%s%s%s" % (a, sep, "." if other is None else other))
+        strings.append(str(a))
+        strings.append("0/%d/1" % a)
+    mine = [s_ for k, s_ in enumerate(strings) if k % NSHARD == p["i"]]
+    for s_ in mine:
+        g = parse_gt(s_)
+        c = classify(g)
+        cs = CallSet(["sel", "oth"], [("ctg7", 100000)], [Record("ctg7", 4242, [g, parse_gt("0/1")], ref="A", alts=["C", "G"])])
+        data = cs.to_vcf()
+        r = E.cli_create(data, [("sel", None)], extra=["-vv"])
+        S.count("C_runs")
+        S.count("C_big_allele_runs")
+        from .. import replay as R
+        tag = "C vcf GT %s (allele index beyond the enumerated alphabet)" % s_
+        if c[0] == "ploidy":
+            wit = {"gt": s_, "level": "C", "argv": r.argv, "input_b64": E.b64(data), "run": r.brief(), "replay": R.reject(r, "ctg7:4242")}
+            if r.panicked or r.rc == 0 or r.out or b"ctg7:4242" not in r.err:
+                S.viol("C08:ploidy:big-allele", "[%s] must fail naming the site: rc %s stdout %r stderr %r" % (tag, r.rc, r.out[:80], r.err[:200]), wit)
+        else:
+            wit = {"gt": s_, "level": "C", "argv": r.argv, "input_b64": E.b64(data), "run": r.brief(), "replay": R.exact(r, b"#SHAPE=<3>\n0 0 0\n")}
+            if r.panicked or r.rc != 0 or r.out != b"#SHAPE=<3>\n0 0 0\n":
+                S.viol("C08:class:big-allele", "[%s] must be skipped (not called): rc %s stdout %r stderr %r" % (tag, r.rc, r.out[:80], r.err[:200]), wit)
+        S.case(key="CB|%s" % s_, nontrivial=True)
+
+
 def shard(S, p):
+    if "replay" not in p:
+        big_allele_sweep(S, p)
     gts = p["gts"] if "replay" not in p else [p["replay"]["gt"]]
     cont_c = p.get("cont_c", ["vcf", "rawbcf", "bcf", "vcf.gz"])
     # ---------------- L2: classification codes from the genotype reader
